@@ -16,6 +16,7 @@ from . import uni, biv, gm, vine
 from .C19 import obs_terms, observe_uni
 from .uni import term
 
+_REPLAY_CACHE = {}
 LEVEL = 'proof'
 TRUSTED = ['json.dump/load and pickle.dump/load return structurally equal copies (assumed; JSON: tuples -> lists, string keys, '
            'floats exact)',
@@ -358,6 +359,17 @@ def build_unfitted(chk):
 
 
 def vine_rt_replay(vt, d):
+    """the native driver depends only on its arguments: run it once per group of obligations"""
+    inner = _vine_rt_replay_uncached(vt, d)
+
+    def replay(env, _key=('vine_rt_replay', vt, d)):
+        if _key not in _REPLAY_CACHE:
+            _REPLAY_CACHE[_key] = inner(env)
+        return _REPLAY_CACHE[_key]
+    return replay
+
+
+def _vine_rt_replay_uncached(vt, d):
     def replay(env):
         import numpy as np
         import pandas as pd
@@ -500,17 +512,19 @@ def bounded_vines(chk):
                 evals += 1
                 distinct.add((d, vt, rep_))
                 try:
-                    v = VineCopula(vt)
-                    v.fit(X)
-                    dct = v.to_dict()
-                    v2 = VineCopula.from_dict(dct)
-                    d2 = v2.to_dict()
-                    u = rs.uniform(0.1, 0.9, size=(1, d))
-                    ok = _eq(dct, d2) and np.isclose(v.get_likelihood(u), v2.get_likelihood(u), rtol=1e-9, equal_nan=True)
-                    v.set_random_state(5)
-                    v2.set_random_state(5)
-                    ok = ok and v.sample(3).equals(v2.sample(3))
-                    detail = 'dict/likelihood/sample equality after from_dict(to_dict())'
+                    from pyvc import report as report_mod
+                    with report_mod.time_limit(180):
+                        v = VineCopula(vt)
+                        v.fit(X)
+                        dct = v.to_dict()
+                        v2 = VineCopula.from_dict(dct)
+                        d2 = v2.to_dict()
+                        u = rs.uniform(0.1, 0.9, size=(1, d))
+                        ok = _eq(dct, d2) and np.isclose(v.get_likelihood(u), v2.get_likelihood(u), rtol=1e-9, equal_nan=True)
+                        v.set_random_state(5)
+                        v2.set_random_state(5)
+                        ok = ok and v.sample(3).equals(v2.sample(3))
+                        detail = 'dict/likelihood/sample equality after from_dict(to_dict())'
                 except Exception as e:
                     ok, detail = False, '%s: %s' % (type(e).__name__, str(e)[:100])
                 if not ok:
